@@ -19,7 +19,7 @@ EXPLANATION = (
     "(5) emit visits every handler: the dispatch is a plain loop with no early exit or short-circuit, the result is accumulated and returned; (7) disconnect() identifies the handler by every field connect() stores except the key; (6) ALIAS: the handler list registered for (sender, signal) is only edited in place and never replaced - connect() holds an alias to it across the creation of the weak references, whose callbacks may disconnect at that very moment."
     ' Added after seed round 3: (8) _prepare_user_args returns tuples it built itself (a snapshot of the connect-time arguments).'
     " Round 4: (9) callbacks are compared by equality, never identity; (10) MetaSignals.__init__ extends only the class's own signal list (from the class dict) or a fresh one."
-    " Round-4 triage: (11) every loop over a handler list whose body compares (==) or calls iterates a snapshot - emit and disconnect; every dereferenced weak reference in the module is tested by identity with None (a live sender may be falsy). Round 5: (12) disconnect() by arguments ends its search at the first match."
+    " Round-4 triage: (11) every loop over a handler list whose body compares (==) or calls iterates a snapshot - emit and disconnect; every dereferenced weak reference in the module is tested by identity with None (a live sender may be falsy). Round 5: (12) disconnect() by arguments ends its search at the first match. Round 7: (12) ... and removes the match by key, never by an index counted on the snapshot it iterates; (13) SENTINEL: the deprecated user_arg is tested against None by identity before it is passed on."
 )
 NOT_DECIDED = "Call order and argument order for all histories (list semantics), garbage-collection timing, behaviour for handlers connected/disconnected mid-emit beyond 'handlers that stay connected are called once'."
 ASSUMPTIONS = []
@@ -405,14 +405,56 @@ def rule_disconnect_one(ctx: Ctx) -> RuleResult:
     cfg = cfg_of(fi)
     calls = nodes_where(cfg, lambda x: isinstance(x, ast.Call) and isinstance(x.func, ast.Attribute) and x.func.attr == "disconnect_by_key")
     heads = [n for n in cfg.nodes if n.kind == "for"]
-    if not calls or not heads:
-        raise AnalysisError("Signals.disconnect: the search loop / the disconnect_by_key() call was not found")
+    if not heads:
+        raise AnalysisError("Signals.disconnect: the search loop was not found")
+    # the search runs over a *snapshot* of the handler list (comparing may run foreign code that changes the list);
+    # an index into the snapshot says nothing about the live list - the matching entry is removed by its key
+    for h in heads:
+        it = h.ast.iter
+        snap = isinstance(it, ast.Call) and ((isinstance(it.func, ast.Name) and it.func.id in ("list", "tuple")) or (isinstance(it.func, ast.Name) and it.func.id == "enumerate" and it.args and isinstance(it.args[0], ast.Call) and isinstance(it.args[0].func, ast.Name) and it.args[0].func.id in ("list", "tuple")))
+        idx = h.ast.target.elts[0].id if isinstance(h.ast.target, ast.Tuple) and isinstance(it, ast.Call) and isinstance(it.func, ast.Name) and it.func.id == "enumerate" and isinstance(h.ast.target.elts[0], ast.Name) else None
+        if snap and idx:
+            for n in ast.walk(h.ast):
+                positional = (isinstance(n, ast.Delete) and any(isinstance(t, ast.Subscript) and isinstance(t.slice, ast.Name) and t.slice.id == idx for t in n.targets)) or (isinstance(n, ast.Call) and isinstance(n.func, ast.Attribute) and n.func.attr == "pop" and n.args and isinstance(n.args[0], ast.Name) and n.args[0].id == idx)
+                if positional:
+                    rr.inst(f"positional removal {norm(n, 40)}", True)
+                    rr.add(finding("PASS", fi, n, f"`{norm(n, 50)}` removes from the live handler list by an index counted on a snapshot of it: comparing entries can run foreign code (__eq__, weak-reference callbacks fired by a collection) that removes an earlier entry in the meantime - the index is stale, the handler *after* the intended one is removed and the one asked for stays connected", construct="handler removed by snapshot index"))
+    if not calls:
+        if rr.findings:
+            return rr
+        raise AnalysisError("Signals.disconnect: the disconnect_by_key() call was not found")
     for c in calls:
         r = cfg.reachable([c], labels=("n", "T", "F"))
         again = [h for h in heads if h in r]
         rr.inst(norm(c.stmt, 50), True, {"removal": norm(c.stmt, 60), "loop_continues": bool(again)})
         if again:
             rr.add(finding("PASS", fi, c.stmt, f"after `{norm(c.stmt, 50)}` the search loop goes on: one disconnect_signal() removes every connection made with the same arguments, so a handler that was connected twice and disconnected once is no longer called although it is still connected once", construct="disconnect continues after the first match"))
+    return rr
+
+
+def rule_user_arg_sentinel(ctx: Ctx) -> RuleResult:
+    """The deprecated positional `user_arg` uses None for 'not given': connect() and disconnect() store and compare the
+    value as it is, so 0, False, '' and () are legitimate user arguments.  Wherever a method of Signals decides whether
+    to pass it on, the test is the identity test with None - a truthiness test drops the falsy ones
+    (Button(.., on_press=cb, user_data=0) calls cb without its argument)."""
+    p = ctx.p
+    rr = RuleResult("SENTINEL", "C14.13", "the deprecated user_arg is tested against None by identity, never for truthiness, before it is passed to the handler", floor=1)
+    cls = p.cls(SIG)
+    for fi in cls.methods.values():
+        if "user_arg" not in fi.all_params:
+            continue
+        for n in fi.own_nodes():
+            tests = []
+            if isinstance(n, (ast.If, ast.IfExp, ast.While)):
+                tests.append(n.test)
+            for t in tests:
+                names_truthy = [x for x in ([t] if isinstance(t, ast.Name) else (t.values if isinstance(t, ast.BoolOp) else ([t.operand] if isinstance(t, ast.UnaryOp) and isinstance(t.op, ast.Not) else []))) if isinstance(x, ast.Name) and x.id == "user_arg"]
+                ident = any(isinstance(c, ast.Compare) and isinstance(c.left, ast.Name) and c.left.id == "user_arg" and isinstance(c.ops[0], (ast.Is, ast.IsNot)) for c in ast.walk(t))
+                if ident:
+                    rr.inst(f"{short(fi)}: {norm(t, 40)}", True, {"test": f"{short(fi)}: {norm(t, 50)}", "form": "identity with None"})
+                for x in names_truthy:
+                    rr.inst(f"{short(fi)}: {norm(t, 40)}", True)
+                    rr.add(finding("SENTINEL", fi, t, f"`{norm(t, 40)}` decides by truthiness whether the deprecated user_arg is passed on; None is the 'not given' marker, 0 / False / '' / () are values a caller may have given (connect and disconnect treat them as present): the handler is called without its argument", construct="user_arg tested for truthiness"))
     return rr
 
 
@@ -501,6 +543,7 @@ def run(ctx: Ctx):
         rule_disconnect_fields(ctx),
         rule_foreign_code(ctx),
         rule_disconnect_one(ctx),
+        rule_user_arg_sentinel(ctx),
     ]
     return out
 
@@ -509,6 +552,8 @@ from ..mutants import Mut  # noqa: E402
 
 _F = "urwid/signals.py"
 MUTANTS = [
+    Mut("disconnect-by-snapshot-index", "urwid/signals.py", "Signals.disconnect", "        for h in list(handlers):  # comparing may run foreign code (__eq__, weak reference callbacks)\n            if h[1:] == (callback, user_arg, user_args):\n                return self.disconnect_by_key(obj, name, h[0])\n", "        for index, h in enumerate(list(handlers)):\n            if h[1:] == (callback, user_arg, user_args):\n                del handlers[index]\n                return None\n", "PASS|signals.Signals.disconnect|handler removed by snapshot index"),
+    Mut("user-arg-dropped-when-falsy", "urwid/signals.py", "Signals._call_callback", "(user_arg,) if user_arg is not None else ()", "(user_arg,) if user_arg else ()", "SENTINEL|signals.Signals._call_callback|user_arg tested for truthiness"),
     Mut("weak-arg-callback-partial-holds-sender", "urwid/signals.py", "Signals.connect", "        user_args = self._prepare_user_args(weak_args, user_args, weakref_callback)", "        import functools\n\n        user_args = self._prepare_user_args(weak_args, user_args, functools.partial(self.disconnect_by_key, obj, name, key))", "CLOS|signals.Signals.connect|strong capture of obj"),
     Mut("meta-signals-extends-class-body-list", "urwid/signals.py", "MetaSignals.__init__", "signals = list(d.get(\"signals\", []))", "signals = d.get(\"signals\", [])", "FRESH|signals.MetaSignals.__init__"),
     Mut("disconnect-removes-every-match", "urwid/signals.py", "Signals.disconnect", "                return self.disconnect_by_key(obj, name, h[0])", "                self.disconnect_by_key(obj, name, h[0])", "PASS|signals.Signals.disconnect"),
